@@ -88,7 +88,7 @@ SIM = {
     "C17": [("sim-c17", dict(mss=2, mb="MB21", mw=2, drops=1, dups=1, rtos=2, close="CloseBoth", hist=45), 45)],
 }
 
-PROFILES = {"C01": ["data", "simopen"], "C03": ["close", "oldsyn", "data"], "C12": ["close"], "C17": ["inject"]}
+PROFILES = {"C01": ["data", "simopen", "late"], "C03": ["close", "oldsyn", "data"], "C12": ["close"], "C17": ["inject"]}
 
 ISNS = [[100, 300], [0xffffffff, 0], [0xfffffff0, 0x7ffffff0], [0x7fffffff, 0xffffffff], [0xffff5555, 0x80000001],
         [0xfffeeeee, 0xffff0000], [0x7fff0000, 0x7ffff000]]
